@@ -227,7 +227,7 @@ def run_case(case: dict) -> Result:
             b0 = decimal.Decimal(b0) if b0 is not None else None
             try:
                 if form == 'unary':
-                    exp = a0 if op == 'pos' else -a0
+                    exp = a0 if op == 'pos' else (a0.copy_negate() if a0 else -a0)   # a sign is exact, as in the text evaluator (a written -x reads back as -x: fix 56)
                 elif form == 'reflected':
                     exp = apply(op, b0, a0)
                 else:
